@@ -79,7 +79,8 @@ def eligibility_spec(draw, ids, style=None):
   order = list(draw(st.permutations(list(range(len(rows))))))
   rows = [rows[i] for i in order]
   return {'rows': rows, 'as_index': draw(st.booleans()), 'style': style,
-          'col_order': list(draw(st.permutations(['control', 'treatment', 'exclude']))) if draw(st.booleans()) else None}
+          'col_order': list(draw(st.permutations(['control', 'treatment', 'exclude']))) if draw(st.booleans()) else None,
+          'row_labels': draw(st.sampled_from([None, None, 'reversed', 'gaps']))}
 
 
 @st.composite
